@@ -78,7 +78,7 @@ Definition c06_xnum_line (s : string) : string :=
 Definition c06_xparse_line (s : string) : string :=
   show_oj (option_map sj_build (json_from_str rn_float_of_tok s)).
 (* XRT: a document printed with the exact printer and read back by the model parser: T when the
-   same document comes back *)
+   same document comes back; then the Value serde_json must build from that text *)
 Fixpoint json_eqb (a b : json) {struct a} : bool :=
   match a, b with
   | JNull, JNull => true
@@ -109,4 +109,5 @@ Definition c06_xrt_line (d : json) : string :=
   ++ match json_from_str rn_float_of_tok text with
      | Some d' => if json_eqb d d' then "T" else "F"
      | None => "ERR"
-     end.
+     end
+  ++ " " ++ show_json (sj_build d).
